@@ -2,6 +2,7 @@ package props
 
 import (
 	"context"
+	"encoding/json"
 	"fmt"
 	"sort"
 	"strings"
@@ -26,7 +27,7 @@ func init() {
 		Workers:     4,
 		Race:        true,
 		CaseTimeout: 240e9,
-		Rule: "real parallel executions under the Go race detector: 2-16 clients call ProcessPushPull at the same instant on a shared key and on their own keys (each call with its own context, cancelled on return), mixed with ProcessClient and PatchDocument calls, with pull-only requests of a subscribed reader that carry the read-only bit, in several waves, with random yields / sleeps injected at the push-pull hook points and at database commands; monitors: (1) critical-section overlap from the cs-enter / cs-exit hook events per (collection, key); (2) linearizability of the recorded call/return history of every key against the sequential push-pull specification (porcupine, partitioned by key; operations carry unique ids; an error reply is a no-op); (3) store invariants of C06 at the end; (4) independence: one key's handler is held inside its critical section by a gate on its database write while requests on other keys (one existing, 40 fresh ones) must return and must not be refused for their lock; (5) every request returns (watchdog classification), including pull-only requests of a client that gives up (context cancelled before the call, 0.1-2 ms into it, or exactly when its handler is about to take the key's lock - hook pp.before-lock), and afterwards sequential fault-free syncs of all clients reach quiescence (a leaked lock or a blocked key shows here); (6) race-detector reports attributed to orda code (none of the accesses in harness code), deduplicated by the pair of innermost orda functions; " +
+		Rule: "real parallel executions under the Go race detector: 2-16 clients call ProcessPushPull at the same instant on a shared key and on their own keys (each call with its own context, cancelled on return), mixed with ProcessClient and PatchDocument calls (one document its owner pushes to, and three documents nothing else touches, patched at the same instant and answered with exactly their targets), with pull-only requests of a subscribed reader that carry the read-only bit, in several waves, with random yields / sleeps injected at the push-pull hook points and at database commands; monitors: (1) critical-section overlap from the cs-enter / cs-exit hook events per (collection, key); (2) linearizability of the recorded call/return history of every key against the sequential push-pull specification (porcupine, partitioned by key; operations carry unique ids; an error reply is a no-op); (3) store invariants of C06 at the end; (4) independence: one key's handler is held inside its critical section by a gate on its database write while requests on other keys (one existing, 40 fresh ones) must return and must not be refused for their lock; (5) every request returns (watchdog classification), including pull-only requests of a client that gives up (context cancelled before the call, 0.1-2 ms into it, or exactly when its handler is about to take the key's lock - hook pp.before-lock), and afterwards sequential fault-free syncs of all clients reach quiescence (a leaked lock or a blocked key shows here); (6) race-detector reports attributed to orda code (none of the accesses in harness code), deduplicated by the pair of innermost orda functions; " +
 			"non-trivial = >= 3 clients pushed operations to the shared key in the same wave; distinct = hash of the observed per-key critical-section entry order (the interleaving actually seen)",
 		Assumptions: []string{
 			"only the in-process local lock is exercised (no Redis in the sandbox); a single server process",
@@ -431,7 +432,8 @@ func runC12(c *core.Case) *core.Result {
 			}
 		}
 	}
-	var readOnlyPulls int64
+	var readOnlyPulls, soloPatches int64
+	defer func() { c.Count("independent_rest_patches_answered_with_their_target", atomic.LoadInt64(&soloPatches)) }()
 	readerSend := func() {
 		req := readerCl.BuildRequest(readerD)
 		for _, p := range req.PushPullPacks {
@@ -575,6 +577,39 @@ func runC12(c *core.Case) *core.Result {
 				}
 			}
 		}()
+		// REST patches of three documents that nothing else touches, at the same instant: keys
+		// of their own are independent of each other and of everything else in the wave, so
+		// every call is answered with exactly the document it asked for
+		for k := 0; k < 3; k++ {
+			key := fmt.Sprintf("solo%d", k)
+			w.ledger.SkipKeys[key] = true
+			target := fmt.Sprintf(`{"k":%d,"pad":"%s","w":%d}`, k, strings.Repeat(string(rune('a'+k)), 10+40*k+wv), wv)
+			side.Add(1)
+			go func() {
+				defer side.Done()
+				var got string
+				out := bed.Guard(15e9, func(ctx context.Context) error {
+					resp, err := w.b.Svc.PatchDocument(ctx, &model.PatchMessage{Collection: "colA", Key: key, Json: target})
+					if resp != nil {
+						got = resp.Json
+					}
+					return err
+				})
+				switch {
+				case out.Panic != "":
+					violation.Store([2]string{"server-panic", "PatchDocument panicked: " + out.Panic})
+				case out.TimedOut && out.Hang:
+					violation.Store([2]string{"request-hang", "PatchDocument never returned\n" + clipDump(out.Dump)})
+				case out.TimedOut:
+				case out.Err != nil:
+					violation.Store([2]string{"independent-patch-refused", fmt.Sprintf("a REST patch of document %s, which nothing else touches, was refused while patches of other documents ran: %v", key, out.Err)})
+				case crdt.Canon(jsonOf(got)) != crdt.Canon(jsonOf(target)):
+					violation.Store([2]string{"independent-patch-answer", fmt.Sprintf("a REST patch of document %s to %s, which nothing else touches, was answered with %s while patches of other documents ran at the same time", key, clip(target, 200), clip(got, 200))})
+				default:
+					atomic.AddInt64(&soloPatches, 1)
+				}
+			}()
+		}
 		go func() { // REST patch on a document that its owner pushes to at the same time
 			defer side.Done()
 			out := bed.Guard(15e9, func(ctx context.Context) error {
@@ -769,4 +804,13 @@ func runC12(c *core.Case) *core.Result {
 		c.NonTrivial()
 	}
 	return c.Held()
+}
+
+// jsonOf decodes a JSON text (nil when it is none).
+func jsonOf(s string) interface{} {
+	var v interface{}
+	if json.Unmarshal([]byte(s), &v) != nil {
+		return nil
+	}
+	return v
 }
